@@ -838,6 +838,30 @@ Section PathP.
       unfold Path.onc. rewrite offc_typ, Hm. reflexivity.
   Qed.
 
+  (** the canonical outline is one of the outlines the specification allows *)
+  Lemma spec_path_valid c : In (spec_path P mid c) (valid_outlines P mid c).
+  Proof.
+    destruct c as [|p0 r]; [left; reflexivity|].
+    unfold Path.spec_path, Path.valid_outlines.
+    destruct (forallb offc (p0 :: r)) eqn:Hall.
+    - rewrite last_on_all_off by exact Hall.
+      destruct (ptyp p0); try (left; reflexivity);
+        (apply in_map_iff; exists 0; split; [rewrite rot_0; reflexivity|apply in_seq; cbn [length]; lia]).
+    - destruct (split_last_on _ Hall) as (b & p & T & Ec & Hp & HT).
+      rewrite Ec. rewrite last_on_split by assumption.
+      destruct (ptyp p0); try (left; reflexivity);
+        (apply in_flat_map; exists (length b); split;
+         [apply in_seq; rewrite app_length; cbn [length]; lia|];
+         rewrite nth_error_app2 by lia; rewrite Nat.sub_diag; cbn [nth_error];
+         rewrite (onc_true _ Hp); left; reflexivity).
+  Qed.
+
+  Theorem path_is_outline c : legal (types c) ->
+    exists path, to_path P mid c = Ok path /\ In path (valid_outlines P mid c).
+  Proof.
+    intros H. exists (spec_path P mid c). split; [apply path_meets_spec; exact H|apply spec_path_valid].
+  Qed.
+
 End PathP.
 
 (** ---------- transforms ---------- *)
